@@ -2,6 +2,7 @@
 // ==== type_system_checker) inlined verbatim as nested modules (DESIGN 3.1).  Functions that carry no contract of the
 // ==== including unit are external_body (type-checked, not verified, opaque to callers).
 //@ include stdlib_checker.rs
+//@ include iterwrap.rs
 // stand-in for crate nitrogql_error (depends on anyhow, not inlined): only named in one From impl, which is dropped
 pub mod nitrogql_error { pub struct PositionedError { pub x: u8 } }
 //@ inline nitrogql_ast crates/ast/src mods=base,current_file,directive,operation,operation_ext,selection_set,r#type:type,type_system,value,variable all=nitrogql_ast,graphql_type_system,nitrogql_semantics,nitrogql_checker,nitrogql_error
@@ -16,6 +17,8 @@ pub mod nitrogql_error { pub struct PositionedError { pub x: u8 } }
 //@ inline nitrogql_checker crates/checker/src mods=common,error,types,type_system_checker,operation_checker all=nitrogql_ast,graphql_type_system,nitrogql_semantics,nitrogql_checker,nitrogql_error
 //@   rewrite_re T-DROP 1 "(?s)impl From<CheckError> for PositionedError \\{.*?\\n\\}\\n" => "/* impl From<CheckError> for PositionedError dropped (nitrogql_error not inlined) */\n"
 //@   labelled_blocks is_mismatch:bool null_is_allowed:bool
+//@   enumerate_for
+//@   wrap_chain vx_filter_count filter,count
 //@   rewrite T18 1 "let Value::ObjectValue(value) = value else {" => "let Value::ObjectValue(value__obj) = value else { /* vx:T18 alpha-renamed shadowing binding `value` -> `value__obj` */"
 //@   rewrite T18 1 "let value_field = value\n" => "let value_field = value__obj\n"
 //@   rewrite T18 2 "value.fields" => "value__obj.fields"
